@@ -430,7 +430,16 @@ def run(repo, rep):
         rep.check(ok, 'C07.f', 'tuple-printer:struct-sequence-fallback', '%s:%d' % (seqp.module.relpath, c.lineno),
                   'any failure of the struct-sequence path falls back to the plain tuple path',
                   'the struct-sequence printer is called without the "except Exception: pass" fallback to the tuple path', nontrivial=True)
-    rep.floor('C07.f', n, 3)
+    ca = m.funcs.get('classattr')
+    if ca is not None:
+        n += 1
+        rr = [src(r.value).replace(' ', '').replace('\n', '') for r in ast.walk(ca.node) if isinstance(r, ast.Return) and r.value is not None]
+        c0, a0 = ca.params[0], ca.params[1]
+        want = ("concat([general_identifier(%s),identifier('.{}'.format(%s))])" % (c0, a0), "concat([general_identifier(%s),identifier('.'+%s)])" % (c0, a0),
+                "concat([general_identifier(%s),identifier(f'.{%s}')])" % (c0, a0))
+        rep.check(len(rr) == 1 and rr[0] in want, 'C07.f', 'classattr:class-dot-member', ca.where, 'Class.member (enum members)',
+                  'classattr returns %s: an Enum member must print as <qualified class>.<member name>' % rr, nontrivial=True)
+    rep.floor('C07.f', n, 4)
     rep.analysed['attribute_reads_checked'] = n_reads
 
 
